@@ -7,8 +7,8 @@ CLAIMED = {
     "C15": {
         "text": "TLC exhaustively explores the newline-iterator machine (all texts <= 5/7 chars over {ASCII, multi-byte, LF, CR} x all interleavings of next/next_back x with_offset bases), the LineIndex scanning machine (all texts incl. leading BOM, all boundary offsets) and the TextRange algebra (all range pairs over low/high endpoints) against declarative definitions (Lines.tla, set reading of ranges); every terminal state is replayed on the real types and random long runs of the real iterator are validated as traces by TLC.",
         "design_ref": "DESIGN.md section 6 C15",
-        "note": "Class representatives stand for their class; offsets near 2^32 use the low/high abstraction (ASSUME-checked lemma in Ranges.tla); exhaustive only within the stated bounds.",
-        "technique": "TLA+ spec (NewlineIter/LineIndex/Ranges vs Lines) model-checked by TLC; TLC-generated behaviours replayed into Rust; recorded iterator traces validated by TLC",
+        "note": "Class representatives stand for their class; offsets near 2^32 use the low/high abstraction (ASSUME-checked lemma in Ranges.tla); exhaustive only within the stated bounds, except the range-algebra laws (intersect/cover lattice laws, set reading, ordering, shifting), which RangesProof.tla proves for all natural offsets with TLAPS (30 obligations, re-proved in every run).",
+        "technique": "TLA+ spec (NewlineIter/LineIndex/Ranges vs Lines) model-checked by TLC; TLC-generated behaviours replayed into Rust; recorded iterator traces validated by TLC; range-algebra laws proved unboundedly with TLAPS",
     },
 }
 CLAIMED["C13"] = {
